@@ -394,7 +394,15 @@ class Explorer:
                 self._fresh = 0
                 self.stats.paths += 1
                 try:
-                    prop = body()
+                    try:
+                        prop = body()
+                    except Exception as e0:
+                        # an explorer control exception may have been replaced by an exception raised in a finally-block of the
+                        # code under test while it was unwinding: recover it from the context chain
+                        ctrl = _masked_control(e0)
+                        if ctrl is not None:
+                            raise ctrl from None
+                        raise
                     self.stats.completed += 1
                     self._finish_path(prop)
                     if len(self.stats.samples) < 3:
@@ -443,6 +451,17 @@ class Explorer:
                 self.plan[-1][0] += 1
         finally:
             _set_cur(None)
+
+
+def _masked_control(e):
+    seen = 0
+    c = e.__context__
+    while c is not None and seen < 20:
+        if isinstance(c, (PathAbort, Cutoff, Inconclusive)):
+            return c
+        c = c.__context__
+        seen += 1
+    return None
 
 
 def _jsonable(x, depth=0):
